@@ -3,6 +3,7 @@ remove_invalid_utf8)."""
 import os
 import sys
 import tempfile
+import time
 
 sys.path.insert(0, os.path.join(os.path.dirname(os.path.abspath(__file__)), "..", "tools"))
 from checklib import *  # noqa
@@ -305,7 +306,15 @@ def main(argv):
         f.write("\n".join(otable) + "\n")
     sweeps = [(1, 0, 256), (2, 0, 256), (3, 0, 256)] + ([(4, 0, 256)] if c.tier == "thorough" else [(4, 0xF0, 0xF8)])
     mism = []
+    sweep_t0 = time.time()
     for k, lo, hi in sweeps:
+        if k == 4 and hi - lo > 1 and c.tier == "quick" and time.time() - sweep_t0 > 6:
+            # the machine is slow right now (the 2^24 sweeps of all 1-3 byte buffers took > 6 s, normally about 1 s): keep the quick tier quick and sweep
+            # only the two boundary four-byte leads; theorem C12_window_composite + the line-protocol classes cover the rest
+            for k2, lo2, hi2 in ((4, 0xF0, 0xF1), (4, 0xF4, 0xF5)):
+                sweeps.append((k2, lo2, hi2))
+            c.assumptions.append("slow machine: quick-tier 4-byte sweep reduced to leads F0 and F4 (full F0..F7 when the 1-3 byte sweeps take < 6 s; all 2^32 in the thorough tier)")
+            continue
         for which, path in (("model" if table is not None else "strict-decoder", tpath), ("oracle", opath)):
             if which == "oracle" and (k == 4 or table is None or table == otable):
                 continue   # identical tables: one run serves as correspondence and as oracle
@@ -432,7 +441,24 @@ def main(argv):
     #      write exactly the stripped, new, non-delimiter, well-formed lines
     SP = b"\t\n\x0b\x0c\r "
     MAGIC = b"df6fa1abb58549287111ba8d776733e9"
-    for data in (files if c.tier == "thorough" else files[:40] + [f for f in files[40:] if len(f) > 250]):
+    # well-formed lines whose LAST byte is every continuation byte 80..BF (2-, 3- and 4-byte sequences, incl. 85 and A0, the
+    # bytes some libraries call spaces) and whose FIRST byte is every lead byte, alone and padded with real spaces
+    edge = []
+    for last in range(0x80, 0xC0):
+        for seq in (bytes([0xC3, last]), bytes([0xE2, 0x82, last]), bytes([0xF0, 0x9F, 0x98, last]), bytes([0xD0, last])):
+            edge += [b"citt" + seq, b"  citt" + seq + b" \t", seq, seq + b" "]
+    for lead in range(0xC2, 0xF5):
+        seq = bytes([lead]) + {2: b"\xa0", 3: b"\xa0\xa0", 4: b"\xa0\xa0\xa0"}[2 if lead < 0xE0 else (3 if lead < 0xF0 else 4)]
+        if lead == 0xED:
+            seq = b"\xed\x9f\xa0"
+        if lead == 0xF4:
+            seq = b"\xf4\x8f\xa0\xa0"
+        if lead == 0xF0:
+            seq = b"\xf0\xa0\xa0\xa0"
+        edge += [seq + b"word", b" \t" + seq + b"word  "]
+    edge = [e for e in edge if py_is_utf8(e)]
+    edge_files = [b"".join(l + b"\n" for l in edge[i:i + 60]) for i in range(0, len(edge), 60)]
+    for data in (files if c.tier == "thorough" else files[:40] + [f for f in files[40:] if len(f) > 250]) + edge_files:
         st, so, se = run_tool([repo_bin("commoncrawl_dedupe")], stdin=data, timeout=60)
         c.count(("ccd", data), nontrivial=len(data) > 0, bucket="tool/commoncrawl_dedupe")
         c.cov["traces_validated_against_impl"] += 1
